@@ -71,6 +71,18 @@ func extraPayloads(wd *mixed.World, at string) []mixed.CatEntry {
 	es = append(es, mixed.CatEntry{Inst: "img", Method: "GET", Path: "raw/0_1_2/64_64_64/-16_-16_-16"})
 	es = append(es, mixed.CatEntry{Inst: "img", Method: "GET", Path: "raw/0_1/64_64/0_0_5"})
 	es = append(es, mixed.CatEntry{Inst: "img", Method: "GET", Path: "subvolblocks/64_64_64/0_0_0?compression=uncompressed"})
+	// read endpoints whose arguments are path segments
+	es = append(es, mixed.CatEntry{Inst: "lm", Method: "GET", Path: "proximity/1/2"})
+	es = append(es, mixed.CatEntry{Inst: "lm", Method: "GET", Path: "sparsevol-by-point/10_10_10"})
+	es = append(es, mixed.CatEntry{Inst: "lm", Method: "GET", Path: "label/10_10_10"})
+	es = append(es, mixed.CatEntry{Inst: "lm", Method: "GET", Path: "supervoxels/1"})
+	es = append(es, mixed.CatEntry{Inst: "lm", Method: "GET", Path: "lastmod/1"})
+	es = append(es, mixed.CatEntry{Inst: "lm", Method: "GET", Path: "index/1"})
+	es = append(es, mixed.CatEntry{Inst: "syn", Method: "GET", Path: "label/1"})
+	es = append(es, mixed.CatEntry{Inst: "syn", Method: "GET", Path: "tag/t1"})
+	es = append(es, mixed.CatEntry{Inst: "lsz", Method: "GET", Path: "count/1/AllSyn"})
+	es = append(es, mixed.CatEntry{Inst: "lsz", Method: "GET", Path: "top/3/AllSyn"})
+	es = append(es, mixed.CatEntry{Inst: "lsz", Method: "GET", Path: "threshold/1/AllSyn"})
 	return es
 }
 
@@ -141,9 +153,16 @@ func hostileURLs(r *rand.Rand, path string, n int) []string {
 	} else {
 		out = append(out, path+"?compression=bogus&scale=255", path+"/", path+"/extra/segments/1_2_3")
 	}
+	// arguments missing: the path cut after each of its segments (never down to nothing)
+	base := path[:lim]
+	for k := strings.LastIndex(base, "/"); k > 0; k = strings.LastIndex(base[:k], "/") {
+		out = append(out, base[:k])
+	}
 	return out
 }
 
+var strValRe = regexp.MustCompile(`:\s*("[^"]*")`)
+var numValRe = regexp.MustCompile(`:\s*(-?\d+)\b`)
 var arrayNumRe = regexp.MustCompile(`([\[,]\s*)(-?\d+)`)
 var blockKeyRe = regexp.MustCompile(`"-?\d+,-?\d+,-?\d+"\s*:`)
 var swapRe = regexp.MustCompile(`(-?\d+)\s*,\s*(-?\d+)\s*\]`)
@@ -541,6 +560,27 @@ func hostileRun(c *drv.Ctx, bin, flav string, seed int64, idx, perEndpoint int) 
 				out = append(out, a...)
 				out = append(out, e.Body[m[5]:]...)
 				reqs = append(reqs, hreq{e.Inst, e.Method, e.Path, out, class, fmt.Sprintf("json-numbers-swapped#%d", k), false})
+			}
+		}
+		if len(e.Body) > 0 && (e.Body[0] == '[' || e.Body[0] == '{') && e.Method != "GET" {
+			for _, v := range [][2]string{{"[]", "json-empty-array"}, {"{}", "json-empty-object"}, {"null", "json-null"}, {"[[]]", "json-nested-empty"}, {`""`, "json-empty-string"}, {"0", "json-zero"}} {
+				reqs = append(reqs, hreq{e.Inst, e.Method, e.Path, []byte(v[0]), class, v[1], false})
+			}
+			// each string value turned into a number and each number into a string (first three of each)
+			for k, m := range strValRe.FindAllSubmatchIndex(e.Body, 3) {
+				out := append(append(append([]byte{}, e.Body[:m[2]]...), "12345"...), e.Body[m[3]:]...)
+				reqs = append(reqs, hreq{e.Inst, e.Method, e.Path, out, class, fmt.Sprintf("json-string-to-number#%d", k), false})
+			}
+			for k, m := range numValRe.FindAllSubmatchIndex(e.Body, 3) {
+				out := append(append(append([]byte{}, e.Body[:m[2]]...), `"x"`...), e.Body[m[3]:]...)
+				reqs = append(reqs, hreq{e.Inst, e.Method, e.Path, out, class, fmt.Sprintf("json-number-to-string#%d", k), false})
+			}
+		}
+		if e.Inst == "nj" && strings.HasPrefix(e.Path, "key/") && e.Method == "POST" && len(e.Body) > 2 && e.Body[0] == '{' {
+			// documented metadata fields (<field>_user, <field>_time are strings) given other JSON types
+			for k, v := range []string{`"type_time": 5`, `"type_user": [1]`, `"n_time": {"a": 1}`, `"type_time": true, "type_user": 3.5`} {
+				out := append([]byte(`{`+v+`, `), e.Body[1:]...)
+				reqs = append(reqs, hreq{e.Inst, e.Method, e.Path, out, class, fmt.Sprintf("documented-field-wrong-type#%d", k), false})
 			}
 		}
 		// binary bodies: each of the first eight 32-bit fields (format headers: counts, lengths, sizes) set to 2^32-1, once each
